@@ -1,3 +1,13 @@
 -- root of the `SqVerif` library: everything `setup.sh` builds
 import SqVerif.Drive.Topo
+import SqVerif.Drive.Stab
+import SqVerif.Drive.Config
+import SqVerif.Drive.Settings
+import SqVerif.Drive.Noise
+import SqVerif.Drive.VNet
+import SqVerif.Props.C13
+import SqVerif.Props.C14
+import SqVerif.Props.C16
 import SqVerif.Props.C17
+import SqVerif.Props.C18
+import SqVerif.Props.C19
